@@ -276,6 +276,32 @@ func NewNode(idx int, g *genesis.Genesis, key *ecdsa.PrivateKey, o NodeOpts) (*N
 		TxPool: txPool, BOps: bOper, Exec: blockExec, CS: cs, Tick: tk, PV: pv, bus: eb}, nil
 }
 
+// StartReal runs the product's ConsensusState.Start (WAL open / repair / catch-up, ticker, event switch, receive
+// routine) and stops the service again, leaving the node in the state OnStart produced, to be driven by the harness.
+// The own messages the catch-up has queued are taken out just before OnStart launches the receive routine (which
+// would otherwise race Stop for them) and are put back, in order, once the routine has ended.
+func (n *Node) StartReal() error {
+	var held []consensus.VerifMsgInfo
+	n.CS.VerifHookEvswStart(func() {
+		for {
+			mi, more := n.CS.VerifPopInternal()
+			if !more {
+				return
+			}
+			held = append(held, mi)
+		}
+	})
+	if err := n.CS.Start(); err != nil {
+		return err
+	}
+	n.CS.Stop()
+	n.CS.VerifWaitDone()
+	for _, mi := range held {
+		n.CS.VerifPushInternal(mi)
+	}
+	return nil
+}
+
 // Close stops the node's background goroutines (event bus, tx pool loop, chain).
 func (n *Node) Close() {
 	if n.bus != nil {
